@@ -413,6 +413,28 @@ pub fn one_step_from_symmetric(rng: &mut Rng) -> Option<(MBoard, bool, u64, Code
             continue;
         }
         let (i, j, k) = cands[rng.below(cands.len())];
+        // a weaker enemy piece next to the square the piece comes from (a pull into it becomes possible); added
+        // as a mirrored pair of enemy rabbits if there is none
+        let mut b = b;
+        let has_prey = (0..4u8).filter_map(|d| nb(j, d)).any(|n| n != i && b.0[n] != 0 && is_gold(b.0[n]) != gold && strength(b.0[n]) < strength(b.0[i]));
+        if !has_prey {
+            let mut added = false;
+            for d in 0..4u8 {
+                if let Some(n) = nb(j, d) {
+                    let m = (n / 8) * 8 + 7 - n % 8;
+                    let goal_rank = if gold { 7 } else { 0 }; // the enemy's rabbits must not stand on their goal rank
+                    if n != i && b.0[n] == 0 && b.0[m] == 0 && m != j && m != i && !TRAPS.contains(&n) && !TRAPS.contains(&m) && n / 8 != goal_rank {
+                        b.0[n] = cell(0, !gold);
+                        b.0[m] = cell(0, !gold);
+                        added = true;
+                        break;
+                    }
+                }
+            }
+            if !added || (0..64).filter(|x| b.0[*x] == cell(0, !gold)).count() > 8 {
+                continue;
+            }
+        }
         let mut start = b;
         start.0[j] = start.0[i];
         start.0[i] = 0;
